@@ -658,7 +658,7 @@ def compare(hist, real, model, multiset=True):
 # ------------------------------------------------------------------------------------------------
 
 def gen_ws(rng, n=None, aliases=True, dirs=True, multi_out=True, nocache_p=0.0, checks_p=0.0, split_p=0.1, shared_p=0.25, dir_p=0.3,
-           outless_p=0.08, tool_p=0.0, multicheck=False):
+           outless_p=0.08, tool_p=0.0, multicheck=False, alias_p=0.35, alias2_p=0.2):
     """layered DAG of n targets (dependencies point to earlier targets), 1-2 targets per package"""
     n = n or rng.randint(2, 6)
     ws = {"targets": {}, "aliases": {}, "files": {}}
@@ -697,10 +697,10 @@ def gen_ws(rng, n=None, aliases=True, dirs=True, multi_out=True, nocache_p=0.0, 
         for j in range(i):
             if rng.random() < (0.5 if j == i - 1 else 0.25):
                 d = labels[j]
-                if aliases and rng.random() < 0.35:
+                if aliases and rng.random() < alias_p:
                     al = lab(ws["targets"][d]["pkg"], "al%d_%d" % (j, i))
                     ws["aliases"][al] = d
-                    if rng.random() < 0.2:
+                    if rng.random() < alias2_p:
                         al2 = lab(pkg, "al2_%d_%d" % (j, i))
                         ws["aliases"][al2] = al
                         al = al2
@@ -957,6 +957,16 @@ def gen_edit(rng, ws, kinds=None):
         o = rng.choice(cands)
         t["skip"] = [o["rel"]]
         return ws, [[out_path(t, o), None]], "%s stops writing %s%s, which is deleted" % (l, "dir::" if o["dir"] else "", o["rel"])
+    if k == "skipfirst":
+        # >= 2 declared outputs, the FIRST one (declaration order) is no longer written and is not there
+        multi = [x for x in labels if len(ws["targets"][x]["outs"]) >= 2 and not ws["targets"][x].get("skip") and not ws["targets"][x].get("split")]
+        if not multi:
+            return None
+        l = rng.choice(multi)
+        t = ws["targets"][l]
+        o = t["outs"][0] if rng.random() < 0.7 else t["outs"][len(t["outs"]) // 2]
+        t["skip"] = [o["rel"]]
+        return ws, [[out_path(t, o), None]], "%s stops writing %s%s, which is deleted" % (l, "dir::" if o["dir"] else "", o["rel"])
     if k == "addcheck":
         flag = "ext/%s.flag" % t["name"]
         if t.get("checks"):
@@ -1023,6 +1033,8 @@ def gen_history(rng, family="mixed", nsteps=None, full=False, minimal=None):
         kw.update(shared_p=1.0)
     if family == "dirs":
         kw.update(dir_p=0.8)
+    if family == "aliaswipe":
+        kw.update(alias_p=0.8, alias2_p=0.6)
     if family == "lostblob":
         kw.update(n=rng.randint(3, 5), dirs=False, split_p=0.0, shared_p=0.0, outless_p=0.0)
     ws = gen_ws(rng, **kw)
@@ -1032,6 +1044,19 @@ def gen_history(rng, family="mixed", nsteps=None, full=False, minimal=None):
             if any("*" in g for g in xt["globs"]) and not xt.get("split"):
                 xt["outs"].append({"dir": True, "rel": "dist%s" % xt["name"][1:]})
                 break
+    if family == "aliaswipe":
+        # make sure some target reaches a dependency only through an alias of an alias
+        def chained(w):
+            return [(x, a) for x in sorted(w["targets"]) for a in w["targets"][x]["deps"] if a in w["aliases"] and w["aliases"][a] in w["aliases"]]
+        if not chained(ws):
+            order = sorted(ws["targets"], key=lambda x: int(ws["targets"][x]["name"][1:]))
+            if len(order) >= 2:
+                d, x = order[0], order[-1]
+                a1 = lab(ws["targets"][d]["pkg"], "alc1")
+                a2 = lab(ws["targets"][x]["pkg"], "alc2")
+                ws["aliases"][a1] = d
+                ws["aliases"][a2] = a1
+                ws["targets"][x]["deps"] = [y for y in ws["targets"][x]["deps"] if resolve_alias(ws, y) != d and y != d] + [a2]
     if family == "lostblob":
         # a chain e <- d <- x (all cached, file outputs): the blob of d's output will be lost
         order = sorted(ws["targets"], key=lambda x: int(ws["targets"][x]["name"][1:]))
@@ -1224,7 +1249,20 @@ def gen_history(rng, family="mixed", nsteps=None, full=False, minimal=None):
             hist["steps"].append({"k": "relocate"})
             build()
             continue
-        if family == "wipe" and r < 0.75:
+        if family == "aliaswipe" and r < 0.45:
+            ch = [(x, a) for x in sorted(cur["targets"]) for a in cur["targets"][x]["deps"] if a in cur["aliases"] and cur["aliases"][a] in cur["aliases"]]
+            if ch:
+                x, a = rng.choice(ch)
+                writes = [[pth, None] for pth in sorted(all_out_paths(cur))]
+                hist["steps"].append({"k": "edit", "ws": cur, "writes": writes, "what": "tamper: wipe all declared outputs"})
+                e2 = copy.deepcopy(cur)
+                e2["targets"][x]["salt"] = "s%d" % rng.randint(400, 499)
+                hist["steps"].append({"k": "edit", "ws": e2, "writes": [], "what": "command of %s (its dependency is behind the alias chain %s)" % (x, a)})
+                cur = e2
+                versions.append(cur)
+                build(["//..."] if rng.random() < 0.5 else [x])
+                continue
+        if family in ("wipe", "aliaswipe") and r < (0.75 if family == "wipe" else 0.7):
             # fresh-checkout shape: every declared output disappears (files only, directories of file outputs stay),
             # or the sources go back to an earlier version (outputs in the workspace are then stale w.r.t. the cache hit)
             if r < 0.45 or len(versions) < 2:
@@ -1265,7 +1303,7 @@ def gen_history(rng, family="mixed", nsteps=None, full=False, minimal=None):
         e = None
         for _try in range(6):
             kinds = None
-            if family == "alias":
+            if family in ("alias", "aliaswipe"):
                 kinds = ["viaalias", "viaalias", "realias", "adddep", "content"]
             if family == "tool":
                 kinds = ["toolcontent", "toolcontent", "toolcontent", "content", "salt"]
@@ -1276,7 +1314,7 @@ def gen_history(rng, family="mixed", nsteps=None, full=False, minimal=None):
             if family == "dirs":
                 kinds = ["addfile", "addfile", "addfile", "rmfile", "content", "salt"]
             if family == "checks":
-                kinds = ["flagoff", "flagoff", "flagon", "flagon", "flagbad", "beh", "beh", "skipout", "skipfresh", "skipfresh", "addcheck", "content", "salt"]
+                kinds = ["flagoff", "flagoff", "flagon", "flagon", "flagbad", "beh", "beh", "skipout", "skipfresh", "skipfresh", "skipfirst", "skipfirst", "addcheck", "content", "salt"]
             e = gen_edit(rng, cur, kinds)
             if e and wf(e[0]):
                 break
